@@ -288,6 +288,14 @@ fn imp(c: &Case) -> String {
                 _ => "?".into(),
             }
         }
+        b"treedec" => {
+            let data = cur.s();
+            match guard(|| TreeRef::from_bytes(&data).map(|t| t.entries.iter().map(|e| format!(" {}:{}:{}", e.mode.0, hexs(e.filename), hexs(e.oid.as_bytes()))).collect::<String>())) {
+                Ok(Ok(s)) => format!("ok{s}"),
+                Ok(Err(_)) => "err".into(),
+                Err(()) => "PANIC".into(),
+            }
+        }
         b"commit" => match commit_owned(&cur.commit()) {
             Some(x) => show_obj(&x),
             None => "?".into(),
@@ -645,6 +653,26 @@ fn prop_inner(c: &Case) -> Verdict {
                 Verdict::ok(true, "tree-ok")
             } else {
                 Verdict::ok(true, "tree-ok-outside-rt-domain")
+            }
+        }
+        b"treedec" => {
+            let data = cur.s();
+            match TreeRef::from_bytes(&data) {
+                Err(_) => Verdict::ok(false, "treedec-err"),
+                Ok(t) => {
+                    // what decodes must re-encode to something that decodes to the same tree
+                    let mut v = Vec::new();
+                    for e in &t.entries {
+                        v.extend(format!("{:o} ", e.mode.0).bytes());
+                        v.extend(e.filename.iter());
+                        v.push(0);
+                        v.extend(e.oid.as_bytes());
+                    }
+                    match TreeRef::from_bytes(&v) {
+                        Ok(t2) if t2 == t => Verdict::ok(!t.entries.is_empty(), "treedec-ok"),
+                        _ => Verdict::fail("treedec-reencode", "decoded tree does not survive re-encoding"),
+                    }
+                }
             }
         }
         op @ (b"commit" | b"commitref") => {
@@ -1202,6 +1230,11 @@ fn boundary(out: &mut Vec<Case>) {
     out.push(tree_case(&[e(0o100644, b"a"), e(0o40000, b"a")]));
     out.push(tree_case(&[e(0o40000, b"a"), e(0o100644, b"a")]));
     out.push(tree_case(&[e(0o100644, b"a\0b")]));
+    for t in [&b""[..], b"100644 a\0", b"100644 a", b"100644", b" a\0aaaaaaaaaaaaaaaaaaaa", b"40000 \0aaaaaaaaaaaaaaaaaaaa", b"040000 a\0aaaaaaaaaaaaaaaaaaaa",
+        b"100644 a\0aaaaaaaaaaaaaaaaaaaa", b"100644 a\0aaaaaaaaaaaaaaaaaaaab", b"100648 a\0aaaaaaaaaaaaaaaaaaaa", b"40000000000040000 a\0aaaaaaaaaaaaaaaaaaaa",
+        b"37777777777 a\0aaaaaaaaaaaaaaaaaaaa", b"1100644 a\0aaaaaaaaaaaaaaaaaaaa", b"644 a\0aaaaaaaaaaaaaaaaaaaa", b"160000 a\0aaaaaaaaaaaaaaaaaaaa120000 b\0bbbbbbbbbbbbbbbbbbbb"] {
+        out.push(vec![tag("treedec"), t.to_vec()]);
+    }
     for n in TAG_NAMES {
         let t = TagV { target: vec![0x44; 20], kind: b"tree".to_vec(), name: n.to_vec(), tagger: None, message: vec![], pgp: None };
         out.push(tag_case("tag", &t));
@@ -1224,7 +1257,37 @@ fn gen(rng: &mut Rng, n: usize) -> Vec<Case> {
                 out.push(c);
             }
             7 => out.push(vec![tag("blob"), gen_text(rng, 60)]),
-            8..=10 => out.push(tree_case(&gen_tree(rng))),
+            8..=9 => out.push(tree_case(&gen_tree(rng))),
+            10 => {
+                // bytes of a written tree, often damaged
+                let es = gen_tree(rng);
+                let mut v = Vec::new();
+                for e in &es {
+                    match rng.below(12) {
+                        0 => v.extend(format!("0{:o} ", e.mode).bytes()),
+                        1 => v.extend(format!("{} ", e.mode).bytes()),
+                        2 => v.extend(format!("7{:o} ", e.mode).bytes()),
+                        3 => v.extend(format!("{:o}{:o} ", rng.next() as u32, e.mode).bytes()),
+                        _ => v.extend(format!("{:o} ", e.mode).bytes()),
+                    }
+                    v.extend(&e.name);
+                    v.push(0);
+                    v.extend(&e.oid);
+                }
+                match rng.below(10) {
+                    0 if !v.is_empty() => {
+                        let k = rng.below(v.len() as u64) as usize;
+                        v.truncate(k);
+                    }
+                    1 if !v.is_empty() => {
+                        let k = rng.below(v.len() as u64) as usize;
+                        v[k] = *rng.pick(b" \0078a");
+                    }
+                    2 => v.extend(rng.bytes(rng.clone().below(25) as usize)),
+                    _ => {}
+                }
+                out.push(vec![tag("treedec"), v]);
+            }
             11..=13 => out.push(commit_case("commit", &gen_commit(rng))),
             14..=15 => {
                 let v = gen_commit(rng);
